@@ -41,6 +41,81 @@ fn bytes_full(b: &[u8], out: &mut Item) {
     out.extend(b.iter().map(|&x| x as i128));
 }
 
+/// an accessor disagrees with the raw field it is derived from: make the case fail loudly
+fn debug_ensure(ok: bool, what: &str) {
+    if !ok {
+        panic!("accessor {} disagrees with the raw value", what);
+    }
+}
+
+/// the characters of a `{:?}`-rendered string literal (with its quotes) as UTF-8 bytes
+fn unescape_debug(q: &str) -> Vec<u8> {
+    let inner: Vec<char> = q[1..q.len() - 1].chars().collect();
+    let mut out = String::new();
+    let mut i = 0;
+    while i < inner.len() {
+        let c = inner[i];
+        if c != '\\' {
+            out.push(c);
+            i += 1;
+            continue;
+        }
+        let e = inner[i + 1];
+        i += 2;
+        match e {
+            'n' => out.push('\n'),
+            'r' => out.push('\r'),
+            't' => out.push('\t'),
+            '0' => out.push('\0'),
+            'u' => {
+                let mut v = 0u32;
+                i += 1; // {
+                while inner[i] != '}' {
+                    v = v * 16 + inner[i].to_digit(16).unwrap();
+                    i += 1;
+                }
+                i += 1;
+                out.push(char::from_u32(v).unwrap());
+            }
+            other => out.push(other), // \\ \" \'
+        }
+    }
+    out.into_bytes()
+}
+
+/// procfs-core's MMapPath is not nameable from this crate: read the variant from its Debug rendering
+fn map_path_obs(d: &str, out: &mut Item) {
+    let arg = |name: &str| -> Option<String> {
+        d.strip_prefix(name).and_then(|r| r.strip_prefix('(')).and_then(|r| r.strip_suffix(')')).map(|x| x.to_string())
+    };
+    match d {
+        "Heap" => out.push(1),
+        "Stack" => out.push(2),
+        "Vdso" => out.push(4),
+        "Vvar" => out.push(5),
+        "Vsyscall" => out.push(6),
+        "Rollup" => out.push(7),
+        "Anonymous" => out.push(8),
+        _ => {
+            if let Some(a) = arg("TStack") {
+                out.push(3);
+                out.push(a.parse::<i128>().unwrap());
+            } else if let Some(a) = arg("Vsys") {
+                out.push(9);
+                out.push(a.parse::<i128>().unwrap());
+            } else if let Some(a) = arg("Path") {
+                out.push(0);
+                bytes_full(&unescape_debug(&a), out);
+            } else if let Some(a) = arg("Other") {
+                out.push(10);
+                bytes_full(&unescape_debug(&a), out);
+            } else {
+                panic!("unrecognised MMapPath rendering {}", d);
+            }
+        }
+    }
+}
+
 fn status<T>(r: &Result<T, Error>) -> i128 {
     match r {
         Ok(_) => 2,
@@ -632,8 +707,8 @@ fn observe(bytes: &[u8]) -> String {
     kv_stream!(MinidumpLinuxProcStatus);
     kv_stream!(MinidumpLinuxLsbRelease);
     kv_stream!(MinidumpLinuxEnviron);
-    // maps: the typed reader parses the text line by line (a malformed line is a stream error; C08/C14
-    // cover that parser); here: the bytes get_raw_stream hands to it
+    // maps: the bytes get_raw_stream hands to the typed reader, then what MinidumpLinuxMaps::read (procfs-core's line
+    // parser) makes of them: outcome (2 regions / 1 error / 3 panic), then every region of iter()
     let maps_raw = dump.get_raw_stream(md::MINIDUMP_STREAM_TYPE::LinuxMaps as u32);
     secs.push((
         status(&maps_raw),
@@ -641,7 +716,34 @@ fn observe(bytes: &[u8]) -> String {
             Ok(b) => {
                 let mut it: Item = vec![];
                 bytes_full(b, &mut it);
-                vec![it]
+                let mut items = vec![it];
+                let typed = std::panic::catch_unwind(std::panic::AssertUnwindSafe(|| dump.get_stream::<MinidumpLinuxMaps>()));
+                match typed {
+                    Err(_) => items.push(vec![3]),
+                    Ok(Err(_)) => items.push(vec![1]),
+                    Ok(Ok(maps)) => {
+                        items.push(vec![2]);
+                        for r in maps.iter() {
+                            let m = &r.map;
+                            let mut it: Item = vec![
+                                m.address.0 as i128,
+                                m.address.1 as i128,
+                                m.perms.bits() as i128,
+                                m.offset as i128,
+                                m.dev.0 as i128,
+                                m.dev.1 as i128,
+                                m.inode as i128,
+                                r.memory_range().is_some() as i128,
+                            ];
+                            debug_ensure(r.is_readable() == (m.perms.bits() & 1 != 0), "is_readable");
+                            debug_ensure(r.is_writable() == (m.perms.bits() & 2 != 0), "is_writable");
+                            debug_ensure(r.is_executable() == (m.perms.bits() & 4 != 0), "is_executable");
+                            map_path_obs(&format!("{:?}", m.pathname), &mut it);
+                            items.push(it);
+                        }
+                    }
+                }
+                items
             }
             Err(_) => vec![],
         },
